@@ -66,6 +66,33 @@ func (s signer) SignWithAlgorithm(_ io.Reader, data []byte, algorithm string) (*
 	return s.agent.SignWithFlags(s.cert.Key, data, flags)
 }
 
+// agentSigner wraps an identity of the underlying agent so that signing with it
+// goes through the shim server, under its mutex, like every other request.
+type agentSigner struct {
+	pub   ssh.PublicKey
+	agent agent.ExtendedAgent
+}
+
+// PublicKey returns the identity's public key.
+func (s agentSigner) PublicKey() ssh.PublicKey { return s.pub }
+
+// Sign signs the data by the identity's key.
+func (s agentSigner) Sign(_ io.Reader, data []byte) (*ssh.Signature, error) {
+	return s.agent.Sign(s.pub, data)
+}
+
+// SignWithAlgorithm signs the data by the identity's key with the specified algorithm.
+func (s agentSigner) SignWithAlgorithm(_ io.Reader, data []byte, algorithm string) (*ssh.Signature, error) {
+	var flags agent.SignatureFlags
+	switch algorithm {
+	case ssh.KeyAlgoRSASHA256:
+		flags = agent.SignatureFlagRsaSha256
+	case ssh.KeyAlgoRSASHA512:
+		flags = agent.SignatureFlagRsaSha512
+	}
+	return s.agent.SignWithFlags(s.pub, data, flags)
+}
+
 type hashcode [sha256.Size]byte
 
 func hash(data []byte) hashcode {
@@ -535,7 +562,10 @@ func (s *Server) Signers() ([]ssh.Signer, error) {
 	if err != nil {
 		return nil, err
 	}
-	for _, signer := range uss {
+	for _, us := range uss {
+		// The signers of the underlying agent would sign on the shared connection
+		// without holding s.mu: hand out signers that go through the server instead.
+		signer := agentSigner{us.PublicKey(), s}
 		if !s.noUpstreamSSHCACert {
 			signers = append(signers, signer)
 			continue
